@@ -258,7 +258,9 @@ func (env *SchedEnv) launchesFor(nc *v1.NodeClaim) (out []struct {
 func (env *SchedEnv) judgeNewNodeClaim(nc *v1.NodeClaim, pods []*corev1.Pod) (viol []c01Violation) {
 	launches := env.launchesFor(nc)
 	if len(launches) == 0 {
-		return []c01Violation{{"new-nodeclaim: no permitted launch", fmt.Sprintf("NodeClaim %s (reqs %s) admits no available (type, offering) of the catalog", nc.Name, reqsCanon(nc.Spec.Requirements))}}
+		// nothing can be launched for this request, so no launch can be infeasible; counted, not a violation
+		env.NoLaunch++
+		return nil
 	}
 	taints := nc.Spec.Taints // startup taints are exempt by design
 	fitsSomewhere := map[string]bool{}
